@@ -59,7 +59,8 @@ partial def monitorLoop (h : IO.FS.Stream) (out : IO.FS.Stream) (b : Fosite.Spec
     let back := match a.prevDump with
       | some d => Fosite.Spec.MonitorTx.resurrected d dump a.seen
       | none => []
-    let hits := hits0 ++ Fosite.Spec.MonitorTx.txHits a.tx a.prevDump obs ++ back
+    let par := if f.headD "" == "par" then Fosite.Spec.MonitorTx.parHits obs else []
+    let hits := hits0 ++ Fosite.Spec.MonitorTx.txHits a.tx a.prevDump obs ++ back ++ par
     out.putStrLn (" ".intercalate hits)
     let seen' := (Fosite.Spec.MonitorTx.allNames dump).foldl (fun acc n => if acc.contains n then acc else n :: acc) a.seen
     monitorLoop h out (Fosite.Spec.Monitor.update b f o) { a with prevDump := some dump, seen := seen' }
